@@ -5616,8 +5616,12 @@ impl PeerConnectionInner {
                     continue;
                 }
                 let val = attr.value.as_ref()?;
-                if val.contains(uri)
-                    && let Some(id_str) = val.split_whitespace().next()
+                // "<id>[/<direction>] <URI> [<attributes>]": the URI is the second token.
+                // (A substring test also matched longer URIs that merely contain this one and
+                // echoed their id bound to a different extension.)
+                let mut tokens = val.split_whitespace();
+                if let Some(id_str) = tokens.next()
+                    && tokens.next() == Some(uri)
                 {
                     return Some(id_str.to_string());
                 }
